@@ -25,14 +25,16 @@ PRELUDES = [
      ["lookup", 1, "CDataArrays", ["name", "a"]], ["append", 3, "LSources", 2], ["probe_link", 4, "LSources"],
      ["remove", 3, "LSources", ["pos", 0]], ["append", 4, "LSources", 2], ["set_attr", 4, "ALabel", "l"], ["reopen", False]],
 ]
-PROFILE = {"keep_walks": True, "preludes": PRELUDES, "prelude_prob": 0.25, "weights": {"reopen": 2.0, "set_attr": 6, "set_link": 4, "remove": 3, "delete": 2, "lookup": 4,
+PROFILE = {"keep_walks": True, "reopen_sweep": True, "preludes": PRELUDES, "prelude_prob": 0.25, "weights": {"reopen": 2.0, "set_attr": 6, "set_link": 4, "remove": 3, "delete": 2, "lookup": 4,
                        "lookup_link": 3, "probe_link": 1.5, "probe": 1, "bad": 0.5}}
 RULE = ("random histories over all modelled entity kinds (blocks, groups, arrays, tags, multi-tags, features, nested sources and "
         "sections, properties) with attribute values incl. None, empty and non-ASCII strings, links and unlinks, deletions, and a "
         "close+reopen (read-write) inserted at random points; every operation goes through a randomly chosen one of all Python "
         "objects obtained so far for the entity (creation result, container lookups, link-list lookups); the canonical walk is "
         "taken through fresh objects after every operation. A quarter of the histories start with a two-handle prelude (a link list "
-        "emptied through one object and refilled through another that had cached it).")
+        "emptied through one object and refilled through another that had cached it). At every reopen, in addition to the walk, "
+        "every public property and argument-free reader method of every entity, dimension, feature and property (found by "
+        "reflection over the classes) is evaluated before closing and after reopening and must answer the same.")
 
 
 HEADER_ATTR = {"AType": 1, "ADefinition": 2}      # offset of the attribute after the id in an entity's walk header
@@ -61,6 +63,11 @@ def predicate(h):
         if op[0] == "reopen" and i > 0 and h["results"][i][0] == "ok":
             if tr[i][1] != tr[i - 1][1]:
                 out.append(("the walk after reopening differs from the walk before closing", i, {"op": op}))
+    # every public property / argument-free reader method of every entity, before closing and after reopening
+    for d in h.get("reopen_diffs") or []:
+        if d["ndiffs"]:
+            out.append(("a read accessor answers differently after close and reopen", d["step"] - 1,
+                        {"accessor": d["diffs"][0][0], "before": d["diffs"][0][1], "after": d["diffs"][0][2], "count": d["ndiffs"]}))
     return out
 
 
